@@ -6,7 +6,7 @@ from build_lib import *
 from statics_lib import hx
 import render_lib
 
-IDENTS = ["a", "b", "page", "item_list", "x1", "Foo", "_p", "mod_", "deep", "z9"]
+IDENTS = ["a", "b", "page", "item_list", "x1", "Foo", "_p", "mod_", "deep", "z9", "page_html", "a_xml", "a_xml_old", "x1_svg", "b_html_"]
 DIRN = ["sub", "admin", "x", "parts", "a", "deep", "_d", "m2"]
 SUFFIX = [".rs.html", ".rs.svg", ".rs.xml"]
 
@@ -74,6 +74,12 @@ def gen_tree(rng, depth=4, broken_p=0.12, counter=None):
                 dn = rng.choice(DIRN)
                 if dn in used: continue
                 used.add(dn); out.append((rel + dn, "dir", None)); rec(rel + dn + "/", d - 1)
+        if rng.random() < 0.2:
+            # two templates of one directory whose generated names are prefixes of one another (page_html / page_html_svg)
+            stem = rng.choice(["pg", "q7", "Idx"]); e1 = rng.choice(SUFFIX); e2 = rng.choice(SUFFIX)
+            for f in (stem + e1, stem + "_" + e1[4:] + rng.choice(["", "_old", "2"]) + e2):
+                if f not in used:
+                    used.add(f); counter[0] += 1; out.append((rel + f, "tmpl", "@()\nM%d;" % counter[0]))
     rec("", depth)
     return out
 
@@ -98,10 +104,16 @@ def run_c10(pid, tier):
     info = ensure_all()
     proof = proof_step(pid, thorough=(tier == "thorough"))
     n = 60 if tier == "quick" else 500
-    scen = []; trees = []
+    scen = []; trees = []; broke = []
     for i in range(n):
         entries = gen_tree(rng, depth=rng.randint(1, 4))
-        trees.append(entries); scen.append(tree_steps(entries) + [('R', [('c', 't')]), ('Z',), ('R', [('c', 't')])])
+        steps = tree_steps(entries) + [('R', [('c', 't')]), ('Z',), ('R', [('c', 't')])]
+        # third run on the same OUT_DIR after one template stopped parsing: it must lose its function and its declaration
+        tm = [p for p, k, _ in entries if k == "tmpl"]
+        victim = rng.choice(tm) if tm and rng.random() < 0.6 else None
+        if victim: steps += [('W', 't/' + victim, "@(now broken"), ('R', [('c', 't')])]
+        broke.append(victim)
+        trees.append(entries); scen.append(steps)
     rs = run_keyed(scen)
     disagree = []; oracle_fail = []
     model_vs_impl(chk, rs, disagree, what=("fs", "out"))
@@ -129,13 +141,19 @@ def run_c10(pid, tier):
                     modfile = "/".join(["templates"] + mods + ["mod.rs"]) if mods else "templates.rs"
                     if ("mod template_%s;" % fn).encode() in files.get(modfile.encode(), b""):
                         oracle_fail.append((r["key"], "broken template %s still got a module declaration" % p, None)); break
+    for victim, r in zip(broke, rs):
+        if victim and len(r["runs"]) >= 3 and r["runs"][2]["status"] == "ok":
+            files = snap_files(r["runs"][2]["after"]); mods, fn = fn_path(victim)
+            modfile = "/".join(["templates"] + mods + ["mod.rs"]) if mods else "templates.rs"
+            if ("mod template_%s;" % fn).encode() in files.get(modfile.encode(), b""):
+                oracle_fail.append((r["key"], "template %s no longer parses, but a run into the OUT_DIR of the earlier build still declares its module (stale code stays callable)" % victim, None))
     # oracle: build a crate that include!s templates.rs and calls every function through its module path
     B = 25
     for s0 in range(0, len(scen), B):
         idx = [i for i in range(s0, min(s0 + B, len(scen))) if rs[i]["runs"][0]["status"] == "ok"]
         root = tempfile.mkdtemp(prefix="rvc10-")
         try:
-            rs2 = run_scenarios([scen[i] for i in idx], keep_root=root)
+            rs2 = run_scenarios([[st for st in scen[i] if not (st[0] == 'W' and st[2] == "@(now broken")][:len(tree_steps(trees[i])) + 3] for i in idx], keep_root=root)
             src = [render_lib.SINK_RS]; main = ["fn main() {"]; calls = []
             for j, (i, r2) in enumerate(zip(idx, rs2)):
                 od = r2["outdir"].decode()
@@ -189,6 +207,10 @@ def edit_history(rng, length):
     """returns (initial steps, list of edit step-lists)"""
     entries = gen_tree(rng, depth=2, broken_p=0.1)
     init = tree_steps(entries) + [('M', 'st'), ('W', 'st/a.css', 'a{}'), ('W', 'st/b.js', 'b')]
+    if rng.random() < 0.5:
+        # outputs larger than 8 / 16 KiB: a long template and several dozen static files
+        init += [('W', 't/big.rs.html', "@()\n" + "<p>a paragraph of literal text, long enough to matter &amp; more</p>\n" * rng.choice([60, 140, 300]))]
+        init += [('W', 'st/i%02d.png' % k, 'png%d' % k) for k in range(rng.choice([30, 70]))]
     files = [p for p, k, _ in entries if k in ("tmpl", "broken")]
     dirs = [p for p, k, _ in entries if k == "dir"]
     edits = []
@@ -211,7 +233,9 @@ def edit_history(rng, length):
         elif k == "repair" and files:
             edits.append([('W', 't/' + rng.choice(files), "@()\nR%d;" % cnt[0])])
         elif k == "static":
-            edits.append([rng.choice([('W', 'st/a.css', 'a{c:%d}' % cnt[0]), ('W', 'st/n%d.png' % cnt[0], 'png'), ('X', 'st/b.js'), ('W', 'st/b.js', 'bb')])])
+            edits.append([rng.choice([('W', 'st/a.css', 'a{c:%d}' % cnt[0]), ('W', 'st/n%d.png' % cnt[0], 'png'), ('X', 'st/b.js'), ('W', 'st/b.js', 'bb'),
+                                      # same length, same modification time, other bytes (cp -p / an edit within the same second)
+                                      ('T', 'st/a.css', 'a{c:%d}' % (9999 - cnt[0] % 1000)), ('T', 'st/b.js', rng.choice(['bq', 'b;', 'zz']))])])
         elif k == "adddir":
             d = rng.choice(DIRN) + "%d" % cnt[0]; dirs.append(d); edits.append([('M', 't/' + d), ('W', 't/' + d + '/' + rng.choice(IDENTS) + '.rs.html', "@()\nD%d;" % cnt[0])])
         else: edits.append([])
@@ -234,8 +258,11 @@ def run_c12(pid, tier):
             mode = rng.random()
             if mode < 0.25:
                 # garbage / truncation in output files before the run
-                victim = rng.choice(["templates.rs", "templates/statics.rs", "templates/_utils.rs", "templates/template_a_html.rs", "templates/sub/mod.rs"])
-                steps.append(('O', victim, rng.choice([b"", b"\xff\xfe garbage", b"pub mod templates {\n", b"x" * 10])))
+                victim = rng.choice(["templates.rs", "templates/statics.rs", "templates/_utils.rs", "templates/_utils.rs", "templates/template_a_html.rs", "templates/sub/mod.rs", "templates/template_big_html.rs"])
+                u = utils_src()
+                steps.append(('O', victim, rng.choice([b"", b"\xff\xfe garbage", b"pub mod templates {\n", b"x" * 10,
+                                                        # damage that keeps the length of the constant helper file
+                                                        u[:100] + bytes([u[100] ^ 1]) + u[101:], b"#" * len(u), u[:-1]])))
             elif mode < 0.5:
                 # a build that dies at its k-th physical write, the file cut at 0 / mid / len-1 bytes
                 steps.append(('C', rng.randint(0, 5), rng.choice([0, -2, -1]), PROG_FULL))
@@ -252,7 +279,7 @@ def run_c12(pid, tier):
         inputs = []
         ri = 0
         for st in steps:
-            if st[0] in 'WMXN': inputs.append(st)
+            if st[0] in 'WTMXN': inputs.append(st)
             elif st[0] == 'R':
                 clean_scen.append(list(inputs) + [('R', st[1])]); clean_ref.append((si, ri)); ri += 1
     crs = run_scenarios(clean_scen)
@@ -312,7 +339,7 @@ def run_c17(pid, tier):
     info = ensure_all()
     proof = proof_step(pid, thorough=(tier == "thorough"))
     n = 80 if tier == "quick" else 800
-    scen = []; infl = []
+    scen = []; infl = []; seen_runs = {}
     for i in range(n):
         entries = gen_tree(rng, depth=rng.randint(1, 3), broken_p=0.05)
         steps = tree_steps(entries)
@@ -332,6 +359,14 @@ def run_c17(pid, tier):
             for p, k, _ in entries:
                 if k == "dir": need.append(("dir", "t/" + p))
                 elif k in ("tmpl", "broken"): need.append(("file", "t/" + p))
+        if rng.random() < 0.5:
+            # compile_templates a second time, on a sibling whose path string extends (or is extended by) the first one's
+            t2 = rng.choice(["t_admin", "t2", "t.old", "tt"])
+            steps += [('M', t2), ('W', t2 + "/extra.rs.html", "@()\nX;"), ('M', t2 + "/inner"), ('W', t2 + "/inner/more.rs.html", "@()\nY;")]
+            call = [('c', t2)]; need2 = [("dir", t2), ("file", t2 + "/extra.rs.html"), ("dir", t2 + "/inner"), ("file", t2 + "/inner/more.rs.html")]
+            if rng.random() < 0.5: prog += call
+            else: prog = call + prog
+            need += need2
         prog.append(('s',))
         dirs_present = sorted(set(s[1] for s in steps if s[0] == 'M' and not s[1].startswith("t")))
         ids = set()
@@ -352,14 +387,17 @@ def run_c17(pid, tier):
             elif k == 'S':
                 prog.append(('S', "scss/m.scss", "", b"a{b:1}\n")); need.append(("file", "scss/m.scss"))
         # duplicate identifiers make the statics module meaningless but do not matter for announcements
-        scen.append(steps + [('R', prog)]); infl.append(need)
+        # the same build script again on the same OUT_DIR (what cargo does after any edit): cargo keeps only the lines of the last run
+        scen.append(steps + [('R', prog), ('R', prog)]); infl.append(need)
     rs = run_keyed(scen)
     disagree = []; oracle_fail = []
     model_vs_impl(chk, rs, disagree, what=("out",))
     kinds = {}
-    for r, need in zip(rs, infl):
-        run = r["runs"][0]
-        chk.count(r["key"].encode(), len(need) > 1)
+    for r, need in [(r0, n0) for r0, n0 in zip(rs, infl) for _ in (0, 1)]:
+        seen_runs[id(r)] = seen_runs.get(id(r), -1) + 1
+        if seen_runs[id(r)] >= len(r["runs"]): continue
+        run = r["runs"][seen_runs[id(r)]]
+        chk.count(r["key"].encode() + b"#%d" % seen_runs[id(r)], len(need) > 1)
         base = r["base"].decode()
         ann = [l[len("cargo:rerun-if-changed="):] for l in run["out"].decode("utf8", "replace").split("\n") if l.startswith("cargo:rerun-if-changed=")]
         rel = [a[len(base) + 1:] if a.startswith(base + "/") else a for a in ann]
@@ -368,7 +406,7 @@ def run_c17(pid, tier):
             covered = any(p == a or p.startswith(a + "/") for a in rel)
             # a directory must be announced itself (or through an ancestor) so that additions to it are seen
             if not covered:
-                oracle_fail.append((r["key"], "%s %s influenced the output but no cargo:rerun-if-changed line covers it (announced: %s)" % (kind, p, rel), None)); break
+                oracle_fail.append((r["key"], "%s %s influenced the output but no cargo:rerun-if-changed line covers it in run %d on this OUT_DIR (announced: %s)" % (kind, p, seen_runs[id(r)] + 1, rel), None)); break
         # the model's read set must be covered too (ties the theorem to the run)
         if "model" in run:
             for p in run["model"]["reads"]:
@@ -411,11 +449,16 @@ def run_c18(pid, tier):
         sa[-1] = ('R', [('c', 't')] + p1); sb[-1] = ('R', [('c', 't')] + p2)
         # (e) into an OUT_DIR that already holds a longer (then: a different, equally long) output under the same name
         se = [('W', 't/' + name, src + "<p>a longer earlier version of this template</p>\n" * 3), ('R', [('c', 't')]), ('W', 't/' + name, src[:-1] + "#" if src else "#"), ('R', [('c', 't')]), ('W', 't/' + name, src), ('R', [('c', 't')])]
-        scen += [sa, sb, sc, sd, se]; meta.append((name, src, sib, len(scen) - 5))
+        # (f) among siblings that do not parse (ructe warns and carries on), whatever order read_dir lists them in
+        bad = [(rng.choice(["a0", "m5", "zz", "B", "_q", "k"]) + "%d" % k + rng.choice(SUFFIX), rng.choice(["@(oops", "@()@if {", "no declaration", "@()@", "@()@* open"])) for k in range(4)]
+        sf = [('W', 't/' + f, c) for f, c in bad[:2]] + [('W', 't/' + name, src)] + [('W', 't/' + f, c) for f, c in bad[2:]] + [('R', [('c', 't')])]
+        # (g) the same file name in the parent, a child, a grandchild and a cousin directory
+        sg = [('W', 't/' + name, src), ('W', 't/sub/' + name, src), ('W', 't/sub/deep/' + name, src), ('W', 't/other/' + name, src), ('W', 't/other/sub/' + name, src), ('R', [('c', 't')])]
+        scen += [sa, sb, sc, sd, se, sf, sg]; meta.append((name, src, sib, len(scen) - 7))
     rs = run_keyed(scen)
     # the same scenarios again from another cwd, with another environment and locale
     env2 = dict(os.environ, LANG="tr_TR.UTF-8", LC_ALL="C", TZ="Pacific/Kiritimati", HOME="/nonexistent", CARGO_PKG_NAME="zzz", OUT_DIR="/nonexistent/out")
-    rs_env = run_scenarios_env([s for s in scen[::5]], env2, cwd="/")
+    rs_env = run_scenarios_env([s for s in scen[::7]], env2, cwd="/")
     disagree = []; oracle_fail = []
     model_vs_impl(chk, rs, disagree, what=("fs",))
     def tfile(r, runi, name):
@@ -425,12 +468,22 @@ def run_c18(pid, tier):
         return cand[0] if len(cand) == 1 else None
     for k, (name, src, sib, s0) in enumerate(meta):
         chk.count(scen[s0][0][2].encode() if isinstance(scen[s0][0][2], str) else scen[s0][0][2], True)
-        outs = [tfile(rs[s0], 0, name), tfile(rs[s0 + 1], 0, name), tfile(rs[s0 + 2], 0, name), tfile(rs[s0 + 3], 0, name), tfile(rs[s0 + 3], 1, name), tfile(rs[s0 + 4], 2, name), tfile(rs_env[k], 0, name)]
+        outs = [tfile(rs[s0], 0, name), tfile(rs[s0 + 1], 0, name), tfile(rs[s0 + 2], 0, name), tfile(rs[s0 + 3], 0, name), tfile(rs[s0 + 3], 1, name), tfile(rs[s0 + 4], 2, name), tfile(rs[s0 + 5], 0, name), tfile(rs_env[k], 0, name)]
+        # (g): five copies in five directories, each with its own declaration
+        mods, fn = fn_path(name)
+        gfiles = snap_files(rs[s0 + 6]["runs"][0]["after"])
+        for d in ["", "sub/", "sub/deep/", "other/", "other/sub/"]:
+            tf = gfiles.get(("templates/" + d + "template_%s.rs" % fn).encode())
+            mf = gfiles.get(("templates/" + d + "mod.rs").encode() if d else b"templates.rs", b"")
+            if tf is None or outs[0] is None or tf != outs[0] or ("mod template_%s;" % fn).encode() not in mf:
+                if outs[0] is not None:
+                    oracle_fail.append((rs[s0 + 6]["key"], "the template %s placed in directory %r of a tree that holds the same file name in other directories is %s" %
+                                        (name, d, "not generated / generated differently" if tf != outs[0] else "not declared in its module"), None)); break
         if any(o is None for o in outs) and not all(o is None for o in outs):
             oracle_fail.append((rs[s0 + 1]["key"], "the template was compiled in one surrounding but not in another", None)); continue
         if len(set(outs)) > 1:
             j = next(i for i in range(len(outs)) if outs[i] != outs[0])
-            oracle_fail.append((rs[s0 + [0, 1, 2, 3, 3, 4, 0][j]]["key"], "generated code for the same template bytes and name differs between surroundings (alone / among siblings / other location / repeated / an OUT_DIR holding earlier output / other cwd+env)",
+            oracle_fail.append((rs[s0 + [0, 1, 2, 3, 3, 4, 5, 0][j]]["key"], "generated code for the same template bytes and name differs between surroundings (alone / among siblings / other location / repeated / an OUT_DIR holding earlier output / among siblings that do not parse / other cwd+env)",
                                 dict(a=(outs[0] or b"").decode("utf8", "replace")[-500:], b=(outs[j] or b"").decode("utf8", "replace")[-500:]))); continue
         # module declarations: a set that depends only on the directory contents
         def decls(r):
